@@ -493,3 +493,33 @@ Proof. vm_compute. reflexivity. Qed.
 (* the hypothesis matters: an empty match between CR and LF splits the line end in two *)
 Example text_hyp_needed : text_spec [13;10] (text_to_html [13;10] [(1, 1)]) = false.
 Proof. vm_compute. reflexivity. Qed.
+
+(* ------------------------------------------------------------- composition: text_to_html_inert *)
+
+(** For EVERY text and EVERY list of match intervals (matches non-empty, no CR/LF):
+    (1) every less-than, greater-than, quote, apostrophe of the input is escaped, every ampersand of the escaped
+        text starts an entity, and the escaped text decodes back to the input;
+    (2) the output is the escaped text cut at the match intervals, with an anchor around
+        exactly the match segments and line ends turned into br + LF in the text segments —
+        nothing else is generated;
+    (3) removing the tags gives back the escaped text (line ends normalised), and every tag is
+        one of the three generated forms;
+    (4) every generated href is attribute-safe (no quote, apostrophe, less-than, greater-than). *)
+Theorem text_to_html_inert : forall (t : str) (ivs : list (N * N)),
+  matches_plain (escape_std t) ivs = true ->
+  let e := escape_std t in
+  let segs := wrap_segs 0 e ivs in
+  ((forall c, In c e -> c <> 60 /\ c <> 62 /\ c <> 34 /\ c <> 39) /\ amp_ok esc_std e = true /\ unescape esc_std e = t)
+  /\ (text_to_html t ivs = flat_map final_seg segs /\ flat_map seg_raw segs = e)
+  /\ (strip_tags false (text_to_html t ivs) = normalise_nl e
+      /\ forallb gen_tag_ok (tags_of None (text_to_html t ivs)) = true)
+  /\ (forall m, In (SAnchor m) segs -> forall c, In c (href_of m) -> c <> 34 /\ c <> 60 /\ c <> 62 /\ c <> 39).
+Proof.
+  intros t ivs Hp e segs. split; [|split; [|split]].
+  - split; [exact (proj1 escape_no_active_chars t)|]. split.
+    + exact (proj1 escape_amp_only_entities t).
+    + exact (proj1 (proj2 (proj2 escape_no_active_chars)) t).
+  - split; [apply text_to_html_final; exact Hp|apply wrap_segs_raw].
+  - destruct (text_fully_escaped t ivs Hp) as [S [T _]]. split; assumption.
+  - intros m I. exact (href_never_quoted t ivs m I).
+Qed.
